@@ -70,6 +70,19 @@ fn run_inner(p: &Params, rep: &mut Report) -> bool {
 }
 
 pub fn replay(prop: &str, kind: &str, text: &str, seed: u64, rep: &mut Report) -> bool {
+    if replay_one(prop, kind, text, seed, rep) {
+        return true;
+    }
+    // a case kind borrowed from another monitor (e.g. a partition case recorded by C14)
+    for other in ["C01", "C02", "C03", "C04", "C05", "C06", "C07", "C08", "C09", "C10", "C11", "C12", "C13", "C14", "C15", "C16", "C17", "C18", "C19", "C20"] {
+        if other != prop && replay_one(other, kind, text, seed, rep) {
+            return true;
+        }
+    }
+    false
+}
+
+fn replay_one(prop: &str, kind: &str, text: &str, seed: u64, rep: &mut Report) -> bool {
     if kind == "deep" {
         let mut it = text.split_whitespace();
         if let (Some(k), Some(n)) = (it.next(), it.next().and_then(|x| x.parse::<usize>().ok())) {
